@@ -168,7 +168,12 @@ class Chart(DictPropertiesEqMixin, DictReprTruncatedSequencesMixin):
             elif header_tag not in cls._required_header_tags:
                 logger.warning(cls._unhandled_data_section_log_msg_tmpl.format(header_tag))
 
-        return cls(metadata, global_events_track, sync_track, instrument_tracks)
+        # Hand over a plain dict: with the defaultdict used for construction, merely looking up an
+        # absent instrument (``chart[instrument]``, ``notes_per_second``) would insert an empty
+        # entry and thereby mutate the chart.
+        return cls(
+            metadata, global_events_track, sync_track, InstrumentTrackMap(dict(instrument_tracks))
+        )
 
     @classmethod
     def _partition_lines_by_data_section(cls, lines: Iterable[str]) -> dict[str, Iterable[str]]:
